@@ -81,12 +81,16 @@ def write_evidence(pid, tier, verif_seed, camp, eng, extra, violations, wall):
             "faults_fired": faults,
             "probes": probes,
             "invalid_world": counts.get("invalid", 0),
+            "distinct_observations": len({r.get("obs_digest") for r in done if r.get("obs_digest")}),
+            "distinct_observations_measure": "number of distinct sha256 digests of the canonical observation of the "
+                                             "baseline execution (per-line attribution, set map, sorted log records, ...)",
             "components": {
                 "real": ["codebasin (all modules, from /repo working tree)", "pathspec", "jsonschema",
                          "tabulate", "numpy", "argparse", "logging", "real file system (private scratch tree)",
                          "os.path/pathlib", "hashlib/filecmp"],
                 "interposed": ["os.scandir/os.listdir (order only)", "Platform.find_include_file wrapper (memo eviction only)",
-                               "ParserState._get_realpath wrapper (cache eviction only)", "process boundary (fork-fresh children, hash-seeded zygotes)"],
+                               "ParserState._get_realpath wrapper (cache eviction only)", "process boundary (fork-fresh children, hash-seeded zygotes)",
+                               "jsonschema.validate: schema-vs-metaschema check memoised by schema content (instance validation untouched)"],
             },
         },
         "assumptions": eng.ASSUMPTIONS,
